@@ -244,6 +244,39 @@ def gen_same_names(rnd):
     return b.finish()
 
 
+def gen_rollout_redeploy(rnd):
+    """A SECOND rollout deploy while a split is in force and rollout-group requests keep arriving: until all of its targets
+    have answered a probe the rollout group must stay on the rollout targets it had (and for ever, if the command fails)."""
+    b = Builder(rnd)
+    b.meta["shape"] = {"mix": "rollout_redeploy"}
+    host, name = b"a.example.com", b"web"
+    ptimeout = rnd.choice([500 * MS, 2 * SEC])
+    b.deploy(name, host, [["ok"]], 5 * SEC, ptimeout, async_=False)
+    b.deploy(name, host, [["ok"] for _ in range(rnd.choice([1, 2]))], 5 * SEC, ptimeout, async_=False, rollout=True)
+    b.steps.append({"op": "rollout_set", "id": b.cmd(), "async": False, "name": H(name), "pct": rnd.choice([0, 100]), "allow": [H(b"alice")]})
+    b.request(host, "before", b"alice")
+    b.request(host, "before")
+    b.sleep(0)
+    dt = rnd.choice([2 * SEC, 3 * SEC])
+    fails = rnd.random() < 0.6
+    n = rnd.choice([2, 2, 3])
+    kinds = [rnd.choice(["ok", "late", "slowok"]) for _ in range(n)]
+    kinds[0] = "ok"                                  # one new target is healthy at once ...
+    kinds[-1] = "never" if fails else "late"         # ... another one late or never
+    b.deploy(name, host, [script(rnd, k, ptimeout, dt) for k in kinds], dt, ptimeout, rollout=True)
+    t = 0
+    for mk in sorted(set(rnd.sample([1, 200 * MS, 700 * MS, 1 * SEC + 1, 1500 * MS, dt - 1, dt, dt + 1, dt + 300 * MS], 5))):
+        b.sleep(mk - t)
+        t = mk
+        b.request(host, "during" if mk < dt else "after-wait", b"alice")
+        if rnd.random() < 0.4:
+            b.request(host, "during" if mk < dt else "after-wait")
+    b.sleep(1 * SEC)
+    for _ in range(3):
+        b.request(host, "after", b"alice")
+    return b.finish()
+
+
 def gen_shapes(rnd, n):
     shapes = []
     mixes = ["all_ok", "all_late", "one_never", "none", "edge", "edge", "flap", "one_never"]
@@ -391,6 +424,7 @@ def run(tier, seed):
         shapes = gen_shapes(rnd, n_directed)
         scen_meta = [gen_scenario(rnd, sh) for sh in shapes]
         scen_meta += [gen_same_names(random.Random(seed * 131 + k)) for k in range(6 if tier == "quick" else 60)]
+        scen_meta += [gen_rollout_redeploy(random.Random(seed * 137 + k)) for k in range(6 if tier == "quick" else 60)]
         scenarios = [s for s, _ in scen_meta]
         metas = [m for _, m in scen_meta]
         rand = m5lb.random_scenarios(rnd, n_random, PROFILES, 8, 25)
